@@ -236,6 +236,25 @@ func c06(c *Ctx) {
 			r := assignRHS(n, func(e ast.Expr) bool { return isField(info, e, fRead) })
 			return r != nil && orig != nil && sameVar(info, r, orig)
 		}))
+		// every assignment of the read pointer that is not the restore
+		advance := toSet(g.Match(func(n ast.Node) bool {
+			r := assignRHS(n, func(e ast.Expr) bool { return isField(info, e, fRead) })
+			return r != nil && !(orig != nil && sameVar(info, r, orig))
+		}))
+		// the saved value is the entry value: its definition is not reachable from an advance
+		if orig != nil {
+			for x := range advance {
+				s, _ := g.Reach([]*GNode{x}, nil, nil)
+				for y := range s {
+					if as, ok := y.N.(*ast.AssignStmt); ok && as.Tok == token.DEFINE && len(as.Lhs) == 1 && objOf(info, as.Lhs[0]) == orig {
+						orig = nil
+					}
+				}
+				if orig == nil {
+					break
+				}
+			}
+		}
 		okT, okF := false, false
 		for _, x := range g.Nodes {
 			for _, e := range x.Succs {
@@ -248,18 +267,44 @@ func c06(c *Ctx) {
 							rest = true
 						}
 					}
-					okT = !s1[g.Exit] && !rest
+					// the read pointer is advanced: before the hand-over (the copy loop) or, on every path, after it
+					advanced := false
+					for a := range advance {
+						if s, _ := g.Reach([]*GNode{a}, nil, nil); s[e.From] {
+							advanced = true
+						}
+					}
+					if !advanced {
+						s3, _ := g.ReachFromEdge(e, func(y *GNode) bool { return advance[y] })
+						advanced = len(advance) > 0 && !s3[g.Exit]
+					}
+					okT = !s1[g.Exit] && !rest && advanced
 				}
 				if edgeImplies(e, func(cnd ast.Expr, pol int) bool { return pol < 0 && isWriteCall(cnd) }) {
-					s1, _ := g.ReachFromEdge(e, func(y *GNode) bool { return restore[y] })
 					s2, _ := g.ReachFromEdge(e, nil)
-					d := false
+					d, advAfter := false, false
 					for y := range s2 {
 						if dec[y] {
 							d = true
 						}
+						if advance[y] {
+							advAfter = true
+						}
 					}
-					okF = !s1[g.Exit] && !d
+					// the read pointer leaves with its entry value: it was never advanced on the way here and is not afterwards,
+					// or the saved entry value is restored on every path (and not advanced again)
+					advBefore := false
+					for a := range advance {
+						if s, _ := g.Reach([]*GNode{a}, nil, nil); s[e.From] {
+							advBefore = true
+						}
+					}
+					unchanged := !advBefore && !advAfter
+					if !unchanged && orig != nil {
+						s1, _ := g.ReachFromEdge(e, func(y *GNode) bool { return restore[y] })
+						unchanged = len(restore) > 0 && !s1[g.Exit] && !advAfter
+					}
+					okF = unchanged && !d
 				}
 			}
 		}
@@ -445,6 +490,37 @@ func c06(c *Ctx) {
 	}
 
 	// R8 Clone
+	c.Rule("R10", "E3 must-pass (negative form)", "BatchProcessor.ForceFlush ends, on every path that is not excused by the stopped flag or a nil member, with the buffer exporter's own ForceFlush (the step that waits for batches already handed to the export goroutine)", 1)
+	if fn := c.Fn(ix, "R10", "(*BatchProcessor).ForceFlush"); fn != nil {
+		g := ix.FG(fn)
+		bef := ix.Func("(*bufferExporter).ForceFlush")
+		if bef == nil {
+			c.Missing("R10", "sdk/log.(*bufferExporter).ForceFlush")
+		} else {
+			through := toSet(g.Match(callToDecl(info, bef)))
+			excuse := func(e *GEdge) bool {
+				return edgeImplies(e, func(cnd ast.Expr, pol int) bool {
+					if call, ok := cnd.(*ast.CallExpr); ok && pol > 0 {
+						if cf := callee(info, call); cf != nil && cf.FullName() == "(*sync/atomic.Bool).Load" {
+							return true
+						}
+					}
+					nn, ok := nilCmp(info, cnd, pol, func(x ast.Expr) bool {
+						if fn.Recv() != nil && sameVar(info, x, fn.Recv()) {
+							return true
+						}
+						_, base := fieldOf(info, x)
+						return base != nil && fn.Recv() != nil && sameVar(info, base, fn.Recv())
+					})
+					return ok && !nn
+				})
+			}
+			seen, parent := g.ReachFromEntry(func(x *GNode) bool { return through[x] }, excuse)
+			c.Check(len(through) > 0 && !seen[g.Exit], "R10", "sdk/log|(*BatchProcessor).ForceFlush|every live path ends with bufferExporter.ForceFlush", at(ix.M, fn.Pos()),
+				itoa(len(through))+" call(s) cut every entry→exit path", "ForceFlush can return without waiting for the batches already buffered for export ("+g.pathLines(parent, g.Exit)+"): records emitted before the call are not yet exported when it returns")
+		}
+	}
+
 	c.Rule("R8", "E8 fieldcover", "Record.Clone re-allocates every slice/map field (= C17.R3)", 1)
 	ruleRecordClone(c, ix, "R8")
 }
